@@ -537,6 +537,10 @@ def run_history(spec, hist, policy="insert_then_get"):
                 # several operations within one loop iteration: the loop does not run between them
                 rw, rr = [], []
                 for sub in op[1]:
+                    if sub[0] == "cancel":          # the caller gives up on a pending future, still in the same iteration
+                        rw.append(ref.cancel_nth(sub[1]))
+                        rr.append(real.cancel_nth(sub[1]))
+                        continue
                     rw.append(ref.apply(sub))
                     rr.append(real.apply(sub))
                 w.pump()
